@@ -161,7 +161,10 @@ def main():
         return dict(execs=int(m.group(1)), cov=int(m.group(2)), ft=int(m.group(3)), corpus_units=int(m.group(4)), corpus_bytes=m.group(5)) if m else {}
 
     stats = {m.group(1): int(m.group(2)) for m in re.finditer(r'stat::(\w+):\s+(\d+)', out)}
-    new = sorted(set(os.listdir(arts)) - before)
+    # artefacts of this run: new files plus the ones libFuzzer says it wrote (an identical crash reuses the file name)
+    written = [os.path.basename(m.group(1)) for m in re.finditer(r'Test unit written to (\S+)', out)]
+    new = sorted((set(os.listdir(arts)) - before) | {f for f in written if os.path.exists(os.path.join(arts, f))})
+    new = [f for f in new if not f.endswith('.case')]
     crashes = [f for f in new if f.startswith('crash-')]
     noise = [f for f in new if f.startswith(('slow-unit-', 'timeout-', 'oom-', 'leak-'))]
     summary = {
@@ -181,7 +184,7 @@ def main():
         p = os.path.join(arts, f)
         what = m.group(1) if m else ''
         if not what:
-            for pat in (r'SUMMARY: .*', r'.*Assertion .* failed.*', r'.*runtime error: .*'):
+            for pat in (r'.*Assertion .* failed.*', r'.*runtime error: .*', r'SUMMARY: .*'):
                 mm = re.search(pat, out)
                 if mm:
                     what = mm.group(0).strip()[:400]
